@@ -543,3 +543,32 @@ def check_rpc(values, workers=16):
             else:
                 bad.append((v, m, real))
     return agree, declined, bad
+
+
+def check_make_inheritance():
+    """GNU Make's lookup order for a variable in the recipe of a target that is built as a
+    prerequisite of the goal: own target-specific > pattern-specific (%:) > inherited from the
+    dependant > global.  All 8 combinations of (pattern line, dependant's value, own value)."""
+    agree = 0
+    bad = []
+    for has_pat in (False, True):
+        for has_parent in (False, True):
+            for has_own in (False, True):
+                text = 'V0 := g\n'
+                text += ('%: V := $(V0)\n' if has_pat else 'V := $(V0)\n')
+                if has_parent:
+                    text += 'parent: V := p\n'
+                if has_own:
+                    text += 'child: V := c\n'
+                text += 'parent: child ; @echo parent=$(V)\nchild: ; @echo child=$(V)\n'
+                with Scratch() as sc:
+                    mk = sc.write('Makefile', text)
+                    r = subprocess.run([MAKE, '-rR', '-f', mk, 'parent'], capture_output=True,
+                                       cwd=sc.dir, timeout=30)
+                got = r.stdout.decode().split('\n')[0]
+                want = 'child=' + ('c' if has_own else 'g' if has_pat else 'p' if has_parent else 'g')
+                if got == want:
+                    agree += 1
+                else:
+                    bad.append((text, want, got))
+    return agree, 0, bad
